@@ -24,6 +24,7 @@ Laws ==
        /\ Chk(Symmetric(i, j), "symmetric", i, j, 0)
        /\ Chk(Negation(i, j), "negation", i, j, 0)
        /\ Chk(Trichotomy(i, j), "trichotomy", i, j, 0)
+       /\ Chk(MixedTrichotomy(i, j), "mixed-trichotomy", i, j, 0)
        /\ Chk(Unions(i, j), "unions", i, j, 0)
        /\ Chk(Antisymmetric(i, j), "antisymmetric", i, j, 0)
        /\ Chk(CmpAgrees(i, j), "cmp-agrees", i, j, 0)
